@@ -22,3 +22,65 @@ package pkcs7
 //@   requires 0 <= offset && offset <= len(ber)
 //@   ensures err == nil ==> 0 <= len(ber) - offset - 2
 //@   modifies nothing
+
+// ---- signature verification gates (C16). The helpers below are ASSUMED (frames and nil-ness only):
+// what is decided is the order and the operands of the gates in verifySignature - nil is returned only
+// if (with authenticated attributes) the messageDigest attribute equals the digest of the content
+// (or the given digest) in a constant-time comparison and the signature is checked over the DER of the
+// attributes, otherwise over the content itself; always with the certificate found by issuer and
+// serial number; and, when a trust store is given, only after the chain verified.
+//@ func getCertFromCertsByIssuerAndSerial trusted
+//@   modifies nothing
+//@ func getSignatureAlgorithm trusted
+//@   modifies nothing
+//@ func unmarshalAttribute trusted
+//@   modifies *out
+//@ func getHashForOID trusted
+//@   modifies nothing
+//@ func newHash trusted
+//@   ensures result != nil
+//@   modifies nothing
+//@ func marshalAttributes trusted
+//@   modifies nothing
+//@ func verifyCertChain trusted
+//@   modifies nothing
+
+//@ func verifySignature property C16
+//@   requires p7 != nil
+//@   nullable truststore
+//@   nullable currentTime
+//@   let CONTENT := objof(p7.Content)
+//@   let CONTOFF := offof(p7.Content)
+//@   let CONTLEN := len(p7.Content)
+//@   let NATTR := len(signer.AuthenticatedAttributes)
+//@   bind after call getCertFromCertsByIssuerAndSerial#1: EE := objof(result)
+//@   bind after call ConstantTimeCompare#1: CMP := result
+//@   bind after call marshalAttributes#1: MOBJ := objof(result0)
+//@   bind after call marshalAttributes#1: MOFF := offof(result0)
+//@   bind after call marshalAttributes#1: MLEN := len(result0)
+//@   bind after call verifyCertChain#1: CHAIN := ite(isnil(result1), 1, 0)
+//@   bind after call CheckSignature#1: SIG := ite(isnil(result), 1, 0)
+//@   bind after call CheckSignatureWithDigest#1: SIGD := ite(isnil(result), 1, 0)
+//@   assert before call Write#1: objof(arg0) == CONTENT && offof(arg0) == CONTOFF && len(arg0) == CONTLEN
+//@   assert before call verifyCertChain#1: objof(arg0) == EE && EE != 0
+//@   assert before call CheckSignature#1: objof(arg0) == EE && EE != 0 && sameslice(arg3, signer.EncryptedDigest)
+//@   assert before call CheckSignature#1: NATTR > 0 ==> objof(arg2) == MOBJ && offof(arg2) == MOFF && len(arg2) == MLEN
+//@   assert before call CheckSignature#1: NATTR == 0 ==> objof(arg2) == CONTENT && offof(arg2) == CONTOFF && len(arg2) == CONTLEN
+//@   assert before call CheckSignatureWithDigest#1: objof(arg0) == EE && EE != 0 && NATTR == 0 && objof(arg2) == CONTENT && sameslice(arg3, signer.EncryptedDigest)
+//@   ensures isnil(err) && NATTR > 0 ==> CMP == 1
+//@   ensures isnil(err) && truststore != nil ==> CHAIN == 1
+//@   ensures isnil(err) ==> SIG == 1 || SIGD == 1
+//@   heapnonnil
+//@   modifies everything
+
+// every signer is verified, in order, and there is at least one
+//@ func (*PKCS7).verifyWithChain property C16
+//@   requires p7 != nil
+//@   let NS := len(p7.Signers)
+//@   ensures isnil(err) ==> NS > 0
+//@   loop 1 invariant -1 <= rangeindex && rangeindex < NS
+//@   loop 1 decreases NS - rangeindex
+//@   assert before call verifySignature#1: 0 <= rangeindex + 1 && rangeindex + 1 < NS && sameobj(arg0, p7)
+//@   assert at return: defined(rangeindex) && isnil(err) ==> rangeindex + 1 == NS
+//@   heapnonnil
+//@   modifies everything
